@@ -120,7 +120,15 @@ func (c *Ctx) err1() {
 		{"(*Client).PublishExactlyOnceRetained", persisted, "as PublishAtLeastOnce"},
 	}
 	n := 0
+	only := map[string]bool{}
+	if c.S.Property == "C11" {
+		// C11 speaks about Subscribe, Unsubscribe and Ping only
+		only = set("(*Client).Subscribe", "(*Client).SubscribeLimitAtMostOnce", "(*Client).SubscribeLimitAtLeastOnce", "(*Client).Unsubscribe", "(*Client).Ping")
+	}
 	for _, t := range table {
+		if len(only) > 0 && !only[t.name] {
+			continue
+		}
 		fn := c.Fn("ERR-1", t.name)
 		if fn == nil {
 			continue
@@ -151,7 +159,11 @@ func (c *Ctx) err1() {
 			}
 		}
 	}
-	c.S.Floor("ERR-1", "error origins of request methods", n, 60)
+	if len(only) > 0 {
+		c.S.Floor("ERR-1", "error origins of request methods", n, 30)
+	} else {
+		c.S.Floor("ERR-1", "error origins of request methods", n, 60)
+	}
 
 	// what may be sent on an exchange channel, and on callback channels
 	g := c.alias()
@@ -168,6 +180,10 @@ func (c *Ctx) err1() {
 		cls := c.chanClass(g, s.Chan)
 		switch cls {
 		case "exchange":
+			if len(only) > 0 {
+				ns++
+				continue
+			}
 			ns++
 			cl := classes(ef.of(s.Val))
 			key := "ERR-1|exchange-send|in(" + load.FuncName(s.Fn) + ")|" + classList(cl)
